@@ -140,9 +140,11 @@ func (i MessageIntegrity) Check(msg *Message) error {
 	msg.WriteLength() // writing length back
 
 	err = checkHMAC(val, expected)
-	if err == nil {
-		// On mismatch the error value may keep a reference to expected
-		// (debug build), so the buffer is reused only on success.
+	if err == nil || err == ErrIntegrityMismatch { //nolint:errorlint,goerr113
+		// The detailed mismatch error of the debug build keeps a reference
+		// to expected; in every other case (match, or the plain sentinel)
+		// nothing refers to the buffer any more and it is reused, so a
+		// rejected message costs no allocation either.
 		hmacScratchPool.Put(scratch)
 	}
 
